@@ -227,7 +227,8 @@ func (s *Service) Message(ctx context.Context, duty *synccommitteemessenger.Duty
 				Uint64("slot", uint64(duty.Slot())).
 				Uint64("validator_index", uint64(validatorIndices[i])).
 				Msg("Failed to sign sync committee message; received zero signature")
-			return nil, errors.New("failed to sign sync committee message; received zero signature")
+			// Carry on with the other validators; their messages are independent of this one.
+			continue
 		}
 		s.log.Trace().
 			Uint64("slot", uint64(duty.Slot())).
